@@ -19,5 +19,9 @@ SPEC = {
         dict(_base, name="h20d", function="h20d", unwind=12,
              what="compint_from_int rejects negatives, equals size encoder, round trips", bounds="all 2^32 ints",
              functions=["compint_from_int", "compint_from_size", "compint_to_int"]),
+        dict(_base, name="h20e", function="h20e", unwind=14, models=["log_err.c", "compint_spec.c"], defines=["-DSPEC_PREFIXED"], replay=None,
+             what="env/compint_spec.c (straight-line reference used by parser harnesses) equals the real compint.c: verdict, value, cursor, error state, encoder bytes",
+             bounds="n in 1..12, cursor 0..n, all bytes, all 64-bit values, any prior error state",
+             functions=["compint_to_size", "compint_to_int", "compint_from_size"]),
     ],
 }
